@@ -32,6 +32,12 @@ OPTS = [
     (["--syntax-theme", "none"], ("syntax-theme", "none"), None),
     (["--max-line-distance", "1.0"], ("max-line-distance", "1.0"), None),
     (["--line-buffer-size", "0"], ("line-buffer-size", "0"), None),
+    # an explicit non-raw header style overrides the raw preset of the mode: text of that class may then be
+    # decorated (e.g. navigate's labels); the line-for-line law still applies
+    (["--hunk-header-style", "red"], ("hunk-header-style", "red"), "omit-hunk-header"),
+    (["--file-style", "red bold"], ("file-style", "red bold"), "omit-file"),
+    (["--commit-style", "yellow"], ("commit-style", "yellow"), "omit-commit"),
+    (["--hunk-header-style", "file line-number syntax"], ("hunk-header-style", "file line-number syntax"), "hunk-header-words"),
 ]
 
 
@@ -52,6 +58,8 @@ def run(tier):
     subsets = [()] + [(i,) for i in range(len(OPTS))] + list(itertools.combinations(range(len(OPTS)), 2))
     if tier == "thorough":
         subsets += [tuple(sorted(rnd.sample(range(len(OPTS)), 3))) for _ in range(600)]
+    # the same option cannot be given twice
+    subsets = [sub for sub in subsets if len({OPTS[i][1][0] for i in sub}) == len(sub)]
     cfgdir = os.path.join(core.scratch(), "c02cfg")
     os.makedirs(cfgdir, exist_ok=True)
     jobs = []
@@ -73,7 +81,7 @@ def run(tier):
 
     def one(job):
         h, args, over, variant, names, via = job
-        data, texts = gitskin.concretise(h, payload=tab_payload)
+        data, texts = gitskin.concretise(h, payload=tab_payload, skin={"frag": ["std", "none", "numbers", "space"][variant % 4]})
         if variant:
             texts = gitskin.colourise(h, texts, variant)
             data = "".join(t + "\n" for t in texts).encode()
